@@ -299,7 +299,15 @@ def run(ctx):
             fails = []
             if not payable:
                 fails.append(("value to non-payable constructor", init + args, 1))
-            fails.append(("truncated constructor arguments", init + args[:-1], 5 if payable else 0))
+            head = 32 * (sum(3 if tt == "uint256[3]" else 1 for tt in types) + 1)
+            fails.append(("truncated constructor arguments", init + args[:head - 1], 5 if payable else 0))
+            fails.append(("truncated constructor arguments", init, 5 if payable else 0))
+            if len(args) > head:   # dynamic tail cut: same semantics as calldata past calldatasize (zeros), counted only
+                ch3 = Chain(cfg.evm)
+                a3 = ch3.deploy(init + args[:head] + args[head:-1][: max(0, len(args) - head - 33)], value=5 if payable else 0)
+                stats["tail_cut"] = stats.get("tail_cut", 0) + 1
+                if a3 is not None and exact_code(ch3, a3):
+                    stats["tail_cut_accepted"] = stats.get("tail_cut_accepted", 0) + 1
             for i, t in enumerate(types):
                 bad_word = {"uint8": word(256), "bool": word(2), "address": word(2**160), "int128": word(2**127)}.get(t)
                 if bad_word and all(tt not in ("String[10]", "Bytes[40]") for tt in types[:i]):
@@ -340,6 +348,30 @@ def run(ctx):
             # blueprint
             bpb = bytes.fromhex(out["blueprint_bytecode"][2:])
             bp_cases.append((cfg, src, types, vals, q, init, bpb, code, shape, payable))
+
+    # ---- round 2: module initialisers / composite immutables / immutables in internal + __default__;
+    #      msize-based builtins in the constructor + static ties of the msize guard and the venom copy instruction
+    from vlib import c13_ext
+    ext = {"module_deployments": 0, "module_calls": 0, "module_slots": 0, "msize_ctor_deployments": 0,
+           "legacy_guard_checked": 0, "venom_copy_kind": {}}
+    for cfg in cfgs:
+        pr, st = c13_ext.modules_case(ctx, cfg, rnd, exact_code, selector)
+        ext["module_deployments"] += st["deploy"]
+        ext["module_calls"] += st["calls"]
+        ext["module_slots"] += st["slots"]
+        if pr:
+            report("failing-input", "module-initialiser constructor: " + pr[0][:160],
+                   {"source": c13_ext.MAIN, "lib.vy": c13_ext.LIB, "config": cfg.name, "problems": pr[:6]},
+                   key=f"c13:modules:{cfg.name}:{pr[0][:40]}")
+        pr, st = c13_ext.msize_case(ctx, cfg, rnd, exact_code, selector, compile_src)
+        ext["msize_ctor_deployments"] += 1
+        ext["legacy_guard_checked"] += st["guard_checked"]
+        if st["copy_kind"]:
+            ext["venom_copy_kind"][st["copy_kind"]] = ext["venom_copy_kind"].get(st["copy_kind"], 0) + 1
+        if pr:
+            report("failing-input", "constructor with msize-based builtins / deploy epilogue shape: " + pr[0][:160],
+                   {"source": c13_ext.MSIZE_CTOR, "child": c13_ext.CHILD, "config": cfg.name, "problems": pr[:6]},
+                   key=f"c13:msize:{cfg.name}:{pr[0][:40]}")
 
     # ---- blueprint: bytes = Coq model; deploy; create_from_blueprint == direct deployment
     from vlib import c16_asm
@@ -410,14 +442,15 @@ def run(ctx):
         ctx.violation("correspondence-broken", "no constructor could be compiled", {"problems": problems[:5]})
 
     ctx.corr.update({
-        "evaluations": n_deploy + n_fail + n_bp + n_off + len(bp_cases),
-        "distinct_nontrivial": n_deploy + n_fail + n_bp,
+        "evaluations": n_deploy + n_fail + n_bp + n_off + len(bp_cases) + ext["module_deployments"] + ext["msize_ctor_deployments"],
+        "distinct_nontrivial": n_deploy + n_fail + n_bp + ext["module_deployments"] + ext["msize_ctor_deployments"],
         "rule": "deployments of distinct generated (constructor source, configuration, argument values); failing "
                 "deployments counted separately; + offset-function grid cases and blueprint byte comparisons",
         "deployments": n_deploy, "must_fail_deployments": n_fail, "getter_calls": n_getters,
         "blueprint_bytes_vs_model": len(bp_cases), "create_from_blueprint": n_bp, "offset_grid_cases": n_off,
         "max_branch": branch, "immutables_checked": stats["immutables"], "immutable_types": stats["types"], "bytestring_slots_with_dirty_slack": stats.get("dirty_slack", 0),
-        "compile_problems": problems[:5], "configs": len(cfgs), "truncated_args_accepted": len(trunc_ok),
+        "compile_problems": problems[:5], "configs": len(cfgs), "round2": ext, "truncated_args_accepted": len(trunc_ok),
+        "dynamic_tail_cut_deployments": stats.get("tail_cut", 0), "dynamic_tail_cut_accepted": stats.get("tail_cut_accepted", 0),
     })
     ctx.samples.append({"shape": "(3 immutables, 2000-word frame, no bloat)", "checks": "code == runtime ++ section; getters"})
     ctx.trusted += ["Coq 8.16.1 kernel + vm_compute", "tools/vlib/py2coq.py (validated by CPython differential)",
